@@ -322,6 +322,18 @@ func (x *Exec) builtin(name string, call *ast.CallExpr, env *Env) []Term {
 		if x.W.IsSeq(rv.Sort) {
 			nv, _ := x.W.WithField(rv, "base", nb)
 			nv.GoT = rv.GoT
+			// element-level statement of the copy on the root sequence
+			c := x.W.Fresh("cpd", nv.Sort)
+			c.GoT = nv.GoT
+			x.W.Facts = append(x.W.Facts, Eq(c, nv).S)
+			a := x.named("cpoff", Arith("-", doff, x.W.SeqOff(rv)))
+			x.W.nfresh++
+			q2 := fmt.Sprintf("q!%d", x.W.nfresh)
+			qj := T(q2, SInt)
+			in2 := And(Cmp("<=", a, qj), Cmp("<", qj, Arith("+", a, n)))
+			x.W.AddFact(env.pc, T(fmt.Sprintf("(forall ((%s Int)) (! %s :pattern (%s)))", q2,
+				Eq(x.W.SeqAt(c, qj), Ite(in2, x.W.SeqAt(src, Arith("-", qj, a)), x.W.SeqAt(rv, qj))).S, x.W.SeqAt(c, qj).S), SBool))
+			nv = c
 			x.assign(root, nv, env)
 		} else {
 			unsupported("copy into non-slice root")
